@@ -43,6 +43,24 @@ def main():
         ok2 = acc(work, p2)
         results.append((prop, ok0, ok1, ok2))
         log(f"{prop}: unmodified trace accepted={ok0}; one field changed accepted={ok1}; one event dropped accepted={ok2}")
+    # record-level trace (update command): flip one observed file state and require a verdict from TLC
+    src = os.path.join(WORKROOT, "C10-quick", "UpdateCommandTrace_shard0.ndjson")
+    if not os.path.exists(src):
+        subprocess.run([sys.executable, os.path.join(VERIF, "run", "check.py"), "C10"], check=False, stdout=subprocess.DEVNULL)
+    recs = read_ndjson(src)[:200]
+    def verdicts(path):
+        r = tlc("UpdateCommandTrace", "UpdateCommandTrace.cfg", work, workers=1, env={"TRACE": path}, depth_first=True, timeout=600,
+                line_filter=lambda l: l.startswith("<<") or "rror" in l)
+        return len(r.printed("VERDICT")), r.ok
+    base = os.path.join(work, "ucmd_base.ndjson"); write_ndjson(base, recs)
+    v0, ok0 = verdicts(base)
+    c1 = json.loads(json.dumps(recs))
+    idx = next(i for i, r in enumerate(c1) if not r["flags"]["replace"])
+    c1[idx]["obs"]["fs"][0]["orig"] = "changed"
+    p1 = os.path.join(work, "ucmd_corrupt.ndjson"); write_ndjson(p1, c1)
+    v1, _ = verdicts(p1)
+    log(f"UpdateCommand: recorded runs: {v0} verdict(s), accepted={ok0}; with one document marked as overwritten without --replace: {v1} verdict(s)")
+    results.append(("UpdateCommand", ok0 and v0 == 0, v1 == 0, False))
     good = all(a and not b and not c for _, a, b, c in results)
     log("SELFTEST " + ("OK: the trace specifications accept the recorded traces and reject both corruptions" if good else "FAILED"))
     sys.exit(0 if good else 2)
